@@ -141,7 +141,7 @@ var Universe = []UType{
 	{"complex64", "", []string{"complex128", "float64"}}, {"complex128", "", []string{"complex64"}},
 	{"string", "string", []string{"ut.MyStr", "[]byte"}}, {"[]byte", "bytes", []string{"ut.MyBytes", "string"}}, {"[]int", "", []string{"[]int64", "[]string"}},
 	{"[]string", "", []string{"ut.Labels", "[2]string"}}, {"*int", "", []string{"int", "*int64"}}, {"*string", "", []string{"string", "*ut.MyStr"}},
-	{"*ut.Pt", "", []string{"ut.Pt", "*int"}}, {"map[string]int", "", []string{"ut.MyMap"}}, {"chan int", "", []string{"<-chan int"}},
+	{"*ut.Pt", "", []string{"*altut.Pt", "ut.Pt", "*int"}}, {"map[string]int", "", []string{"ut.MyMap"}}, {"chan int", "", []string{"<-chan int"}},
 	{"func() int", "", []string{"func() string"}}, {"any", "", []string{"fmt.Stringer", "error"}}, {"error", "", []string{"any", "*ut.Err"}},
 	{"fmt.Stringer", "", []string{"any", "*ut.Buf", "ut.Tag"}}, {"[0]int", "", []string{"[0]string", "struct{}"}}, {"[3]byte", "", []string{"[4]byte", "[]byte"}},
 	{"[2]string", "", []string{"[]string"}}, {"[5]int16", "", []string{"[5]uint16"}}, {"[33]uint64", "", []string{"[32]uint64"}}, {"struct{}", "", []string{"[0]int"}},
@@ -149,6 +149,8 @@ var Universe = []UType{
 	{"ut.MyInt64", "int", []string{"int64"}}, {"ut.MyBytes", "bytes", []string{"[]byte"}}, {"ut.MyF32", "float", []string{"float32"}}, {"ut.MyF64", "float", []string{"float64"}},
 	{"ut.Labels", "", []string{"[]string"}}, {"ut.MyMap", "", []string{"map[string]int"}}, {"ut.MyBool", "", []string{"bool"}}, {"*ut.Buf", "", []string{"fmt.Stringer", "ut.Buf"}},
 	{"ut.Tag", "", []string{"fmt.Stringer", "uint8"}},
+	// same printed name as the ut namesakes, different package: "*ut.Pt", "[]ut.MyStr", "ut.Pt"
+	{"*altut.Pt", "", []string{"*ut.Pt"}}, {"[]altut.MyStr", "", []string{"[]ut.MyStr", "[]string"}}, {"altut.Pt", "", []string{"ut.Pt"}},
 }
 
 func utype(expr string) *UType {
